@@ -229,7 +229,11 @@ func amountSweep(maxM uint64) amtResult {
 
 // ---------------------------------------------------------------- child process helper
 
-func runChild(args ...string) error {
+var errChildTimeout = fmt.Errorf("child did not finish in time")
+
+func runChild(args ...string) error { return runChildT(15*time.Minute, args...) }
+
+func runChildT(limit time.Duration, args ...string) error {
 	cmd := exec.Command(os.Args[0], args...)
 	var eb strings.Builder
 	cmd.Stderr = &eb
@@ -248,9 +252,10 @@ func runChild(args ...string) error {
 			return fmt.Errorf("%v: %s", err, s)
 		}
 		return nil
-	case <-time.After(15 * time.Minute):
+	case <-time.After(limit):
 		cmd.Process.Kill()
-		return fmt.Errorf("child did not finish within 15 minutes")
+		<-done
+		return errChildTimeout
 	}
 }
 
@@ -299,6 +304,106 @@ func runSnapshot(mode string, n int) snapOutcome {
 		o.viol = append(o.viol, r.Viol...)
 		if len(r.Viol) > 0 {
 			return o // later generations would only repeat the damage
+		}
+	}
+	return o
+}
+
+// fallbackCuts: where UTXO.db is cut for the fallback scenarios, from the record
+// boundaries of the file (offsets of the records after the 48-byte header).
+func fallbackCuts(img []byte) (names []string, cuts []int) {
+	var bounds []int // start offset of each record (its length prefix), then the end
+	off := 48
+	for off < len(img) {
+		bounds = append(bounds, off)
+		w, le := 1, int(img[off])
+		switch img[off] {
+		case 0xfd:
+			w, le = 3, int(img[off+1])|int(img[off+2])<<8
+		case 0xfe:
+			w, le = 5, int(img[off+1])|int(img[off+2])<<8|int(img[off+3])<<16|int(img[off+4])<<24
+		}
+		off += w + le
+	}
+	if off != len(img) || len(bounds) < 2 {
+		ev.HarnessError("cannot walk the snapshot written for the fallback scenario")
+	}
+	last := bounds[len(bounds)-1]
+	names = []string{"empty-file", "inside-height", "inside-block-hash", "inside-record-count", "header-only", "inside-first-length-or-record", "middle-of-first-record", "after-first-record", "middle-of-file", "before-last-record", "middle-of-last-record", "last-byte-missing"}
+	cuts = []int{0, 7, 40, 47, 48, 49, (48 + bounds[1]) / 2, bounds[1], len(img) / 2, last, (last + len(img)) / 2, len(img) - 1}
+	return
+}
+
+const fallbackCutCount = 12
+
+// runFallback: UTXO.db (state after block 3) is cut short, UTXO.old (state after block 2)
+// is intact: the loader must come back with the older complete state.
+func runFallback(n, cut int) snapOutcome {
+	o := snapOutcome{mode: "fallback", n: n}
+	dir := ev.Scratch("c10-fb")
+	defer os.RemoveAll(dir)
+	os.MkdirAll(dir+"/db", 0o755)
+	steps := []snapSpec{{Op: "write", Gen: 0}, {Op: "reopen", Gen: 2}, {Op: "verify", Gen: 2}}
+	for i, sp := range steps {
+		sp.Mode, sp.N, sp.Dir = "plain", n, dir+"/db/"
+		sp.Result = fmt.Sprintf("%s/result%d.json", dir, i)
+		bs, _ := json.Marshal(sp)
+		specFile := fmt.Sprintf("%s/spec%d.json", dir, i)
+		os.WriteFile(specFile, bs, 0o644)
+		limit := 15 * time.Minute
+		cutName := ""
+		if i == 2 {
+			img, err := os.ReadFile(dir + "/db/UTXO.db")
+			if err != nil {
+				ev.HarnessError("fallback scenario: %v", err)
+			}
+			if _, err := os.Stat(dir + "/db/UTXO.old"); err != nil {
+				ev.HarnessError("fallback scenario: no UTXO.old after the second save: %v", err)
+			}
+			names, cuts := fallbackCuts(img)
+			cutName = names[cut]
+			o.mode = "fallback/" + cutName
+			if err := os.WriteFile(dir+"/db/UTXO.db", img[:cuts[cut]], 0o644); err != nil {
+				ev.HarnessError("fallback scenario: %v", err)
+			}
+			limit = 60 * time.Second // loading a few hundred records takes milliseconds
+		}
+		if err := runChildT(limit, "--snap", specFile); err != nil {
+			if i == 2 && (err == errChildTimeout || strings.Contains(err.Error(), "all goroutines are asleep")) {
+				how := "did not return within 60 s"
+				if err != errChildTimeout {
+					how = "never returns (the process has no other goroutine, so the Go runtime reports: all goroutines are asleep - deadlock, in sync.WaitGroup.Wait called by NewUnspentDb)"
+				}
+				o.viol = append(o.viol, violation{"snap/fallback/loader-never-returns", fmt.Sprintf("NewUnspentDb %s on a directory whose UTXO.db is cut short (%s) and whose UTXO.old is a complete older snapshot: the map-filling goroutine started for UTXO.db is never sent its terminating nil before the loader retries with UTXO.old, and wg.Wait() then waits for it for ever", how, cutName)})
+				return o
+			}
+			if strings.Contains(err.Error(), "HARNESS:") {
+				ev.HarnessError("fallback scenario child: %v", err)
+			}
+			e := err.Error()
+			if len(e) > 600 {
+				e = e[:600]
+			}
+			o.viol = append(o.viol, violation{"snap/fallback/process-died", fmt.Sprintf("%s step (cut %s): %s", sp.Op, cutName, e)})
+			return o
+		}
+		var r snapResult
+		rb, err := os.ReadFile(sp.Result)
+		if err != nil || json.Unmarshal(rb, &r) != nil {
+			ev.HarnessError("fallback scenario child left no result: %v", err)
+		}
+		o.steps++
+		o.records += r.Records
+		o.lookups += r.Lookups
+		for _, v := range r.Viol {
+			if i == 2 {
+				v.Key = strings.Replace(v.Key, "snap/plain/", "snap/fallback/", 1)
+				v.What += " [UTXO.db cut: " + cutName + "; expected: the state of the intact UTXO.old]"
+			}
+			o.viol = append(o.viol, v)
+		}
+		if len(r.Viol) > 0 {
+			return o
 		}
 	}
 	return o
@@ -359,6 +464,8 @@ func replay(file string) {
 			Value  uint64   `json:"value"`
 			Mode   string   `json:"mode"`
 			Setup  string   `json:"setup"`
+			Cut    string   `json:"cut"`
+			Format string   `json:"format"`
 			N      int      `json:"n"`
 		} `json:"replay"`
 	}
@@ -378,6 +485,29 @@ func replay(file string) {
 		viol = runSnapshot(rec.Replay.Mode, rec.Replay.N).viol
 	case "abort":
 		viol = runAbort(rec.Replay.Setup, rec.Replay.Mode).viol
+	case "fallback":
+		_, _ = fallbackCuts, 0
+		for c := 0; c < fallbackCutCount; c++ {
+			o := runFallback(rec.Replay.N, c)
+			if strings.TrimPrefix(o.mode, "fallback/") == rec.Replay.Cut {
+				viol = o.viol
+				break
+			}
+		}
+	case "sequence":
+		d := ev.Scratch("c10-seq")
+		defer os.RemoveAll(d)
+		if err := runChild("--seq-worker", rec.Replay.Format, "quick", d, d+"/result.json"); err != nil {
+			ev.HarnessError("sequence worker: %v", err)
+		}
+		var sr seqResult
+		bs, _ := os.ReadFile(d + "/result.json")
+		json.Unmarshal(bs, &sr)
+		os.RemoveAll(d) // replay ends in os.Exit: deferred calls do not run
+		for k, v := range sr.Viol {
+			viol = append(viol, violation{k, v.What})
+		}
+		sort.Slice(viol, func(i, j int) bool { return viol[i].Key < viol[j].Key })
 	default:
 		ev.HarnessError("unknown replay kind %q", rec.Replay.Kind)
 	}
@@ -479,6 +609,19 @@ func main() {
 			}(mode, n)
 		}
 	}
+	var fallbacks []snapOutcome
+	for _, n := range []int{2, 257} {
+		for cut := 0; cut < fallbackCutCount; cut++ {
+			wg.Add(1)
+			go func(n, cut int) {
+				defer wg.Done()
+				o := runFallback(n, cut)
+				smu.Lock()
+				fallbacks = append(fallbacks, o)
+				smu.Unlock()
+			}(n, cut)
+		}
+	}
 	// 4. sequences through the entry points that reuse package-level buffers (seq.go)
 	seqRes := map[string]*seqResult{}
 	for _, f := range []string{"U", "C"} {
@@ -574,6 +717,26 @@ func main() {
 			r.Report(v.Key, fmt.Sprintf("%s [pool of %d records]", v.What, o.n), map[string]interface{}{"kind": "snapshot", "mode": o.mode, "n": o.n})
 		}
 	}
+	sort.Slice(fallbacks, func(i, j int) bool {
+		if fallbacks[i].n != fallbacks[j].n {
+			return fallbacks[i].n < fallbacks[j].n
+		}
+		return fallbacks[i].mode < fallbacks[j].mode
+	})
+	fbCov := []map[string]interface{}{}
+	for _, o := range fallbacks {
+		outcome := "older snapshot loaded"
+		if len(o.viol) > 0 {
+			outcome = "differs"
+		}
+		fbCov = append(fbCov, map[string]interface{}{"scenario": o.mode, "records_in_pool": o.n, "steps_run": o.steps, "outcome": outcome})
+		snapEvals += o.steps
+		tot.Shapes[fmt.Sprintf("%s|n=%d|%s", o.mode, o.n, outcome)]++
+		for _, v := range o.viol {
+			vc[v.Key]++
+			r.Report(v.Key, v.What, map[string]interface{}{"kind": "fallback", "n": o.n, "cut": strings.TrimPrefix(o.mode, "fallback/")})
+		}
+	}
 	seqCov := map[string]interface{}{}
 	seqEvals := 0
 	for _, f := range []string{"U", "C"} {
@@ -618,7 +781,9 @@ func main() {
 		samples = append(samples, s)
 	}
 	r.Finish(map[string]interface{}{
-		"evaluations":            tot.Evals + am.evals + snapEvals,
+		"evaluations":            tot.Evals + am.evals + snapEvals + seqEvals,
+		"record_sequences":       seqCov,
+		"fallback_scenarios":     fbCov,
 		"records_evaluated":      tot.Evals,
 		"records_per_family":     tot.PerFam,
 		"amount_roundtrips":      am.evals,
